@@ -21,5 +21,10 @@ def main(run):
     if want(run, 'P') or want(run, 'T'):
       with anchored(run, 'C07/P'):
         deductive(run)
+    if want(run, 'F'):
+      with anchored(run, 'C07/F'):
+        # the observables of this property are (or read) memoised values: no covered mutator leaves one of them stale (engine F restricted to the keys these observables read)
+        from checks.fpart import run_F
+        run_F(run, entry_points=['get_mapping', '_get_mapping', 'get_automorphism_mapping', 'is_substructure', 'is_equal', '_cython_compiled_structure', '_compiled_query', 'connected_components'])
     bounded_part(run, 'C07')
     return FINISH
